@@ -146,7 +146,7 @@ pub fn generate(prop: NetProp, seed: u64, tier: Tier) -> Case<NetCfg, NetOp> {
     let wrap = match tier {
         Tier::Quick => c.chance(1, 400),
         Tier::Thorough => c.chance(1, 60),
-    } && matches!(prop, NetProp::C01 | NetProp::C04);
+    } && matches!(prop, NetProp::C01 | NetProp::C02 | NetProp::C04);
     if wrap {
         op_profile = 5;
     }
@@ -166,10 +166,13 @@ pub fn generate(prop: NetProp, seed: u64, tier: Tier) -> Case<NetCfg, NetOp> {
             }
         }
     };
-    let window = match prop {
+    // the wrap profile must get >1024 vital chunks through: light faults only
+    let (loss, dup, reorder, sendfail) = if wrap { (loss.min(30), dup.min(30), reorder.min(100), sendfail.min(5)) } else { (loss, dup, reorder, sendfail) };
+    let window = if wrap { *c.pick(&[64u32, 128, 400]) } else { 0 };
+    let window = if wrap { window } else { match prop {
         NetProp::C02 => c.range(4, 96) as u32,
         _ => *c.pick(&[8u32, 64, 200, 400, 400]),
-    };
+    } };
     let age = c.range(200, 400) as u32;
     let cfg = NetCfg {
         proto,
@@ -259,7 +262,7 @@ pub fn generate(prop: NetProp, seed: u64, tier: Tier) -> Case<NetCfg, NetOp> {
         2 => [40, 8, 8, 22, 10, 8, 3, 1, 0],
         3 => [5, 40, 3, 20, 12, 12, 6, 1, 1],
         4 => [35, 8, 8, 28, 12, 3, 2, 1, 3],
-        _ => [60, 0, 0, 38, 0, 2, 0, 0, 0],
+        _ => [55, 2, 0, 35, 0, 8, 0, 0, 0],
     };
     let mut disconnected = false;
     while g.ops.len() < n_target {
